@@ -88,6 +88,9 @@ def gen_read(r, gene, idx, force_eligible=False):
                 # (an `=` run too: it is a match against the ALIGNER's reference, aldy compares with its own gene sequence)
                 if r.random() < (0.12 if op != "=" else 0.06):
                     b = r.choice([c for c in "ACGT" if c != b])
+                # no-calls and ambiguity codes in the aligned part: an observation like any other (`ref>N`), it counts for the depth
+                if r.random() < 0.015:
+                    b = r.choice("NNNRY")
                 seq.append(b)
             p += n
         elif op == "I" or op == "S":
@@ -121,6 +124,14 @@ def fake_sample(gene, eqs=None):
     from aldy.sam import Sample
     s = Sample.__new__(Sample)
     s.gene = gene
+    # every attribute Sample.__init__ sets before it reads a short-read SAM/BAM (a change that consults one of them in
+    # _parse_read must meet the same state here)
+    s.name, s.path, s.profile = "fake", "fake.bam", None
+    s._dump_cn = collections.defaultdict(int)
+    s._dump_reads = []
+    s._fusion_counter = {}
+    s.is_long_read = False
+    s.reads = None
     s.phases = {}
     s._indel_sites = {(pos, op): [0, 0] for pos, op in gene.mutations if op[:3] in ["ins", "del"]}
     s._indel_sites_eqs = {}
